@@ -95,6 +95,7 @@ static int runAlloc(const char *opsfile)
 //   clk2[-]   second clock (registers of ent1 run on it) ; "-" = not present
 //   ipc=<name>,<name>,...   interface package natural constants (only when given)
 //   shape=<full|mem|tiny|late>   full: everything; mem: clock+memory only; tiny: two pins;
+//                           clkrst: logic-driven clock / reset lines (cl= rl= dv= sub=);
 //                           late: forward-declared signals read before assigned (lv=0..9, nm=0|1)
 // Output: "D <id> ok <nfiles>" | "D <id> exception <what>"
 // ---------------------------------------------------------------------------------------------
@@ -282,6 +283,65 @@ static void buildLate(const Case &c)
 	pinOut(res).setName(c.get("po0", "res"));
 }
 
+
+// "clkrst" family: clocks whose clock line and/or reset line is driven by LOGIC
+// (Clock::overrideClkWith / overrideRstWith / reset(Bit)) in all pin/logic combinations, a derived
+// clock of such a clock, registers in the root entity and in a sub-entity.
+//   cl=<pin|logic>  rl=<pin|logic|logic2>  (logic2: Clock::reset(Bit))   dv=<0|1> derived clock   sub=<0|1>
+static void buildClkRst(const Case &c)
+{
+	std::string cl = c.get("cl", "pin"), rl = c.get("rl", "pin");
+	bool dv = c.get("dv", "0") == "1", sub = c.get("sub", "1") == "1";
+	Clock clock({.absoluteFrequency = 100'000'000, .name = c.get("clk", "clk"), .resetName = c.get("rst", "reset")});
+	Bit clkSrc = pinIn().setName(c.get("pi0", "clk_src"));
+	Bit rstSrc = pinIn().setName(c.get("pi1", "rst_src"));
+	Bit gate = pinIn().setName(c.get("pi2", "gate"));
+	if (cl == "logic") {
+		Bit gated = clkSrc & gate;
+		if (c.get("nm", "0") == "1") gated.setName(c.get("sg0", "gated_clk"));
+		clock.overrideClkWith(gated);
+	}
+	if (rl == "logic") {
+		Bit r = rstSrc | gate;
+		if (c.get("nm", "0") == "1") r.setName(c.get("sg1", "logic_rst"));
+		clock.overrideRstWith(r);
+	} else if (rl == "logic2")
+		clock.reset(rstSrc);
+
+	std::optional<Clock> derived;
+	if (dv) derived.emplace(clock.deriveClock(ClockConfig{.name = c.get("clk2", "clk_derived"), .resetName = c.get("rst2", "rst_derived")}));
+
+	UInt x, y, a, b;
+	{
+		ClockScope cs(clock);
+		a = pinIn(4_b).setName(c.get("pi3", "a"));
+		b = pinIn(4_b).setName(c.get("pi4", "b"));
+		UInt s = a + b; s.setName(c.get("sg2", "sum"));
+		x = reg(s, 0);
+		x.setName(c.get("rg0", "x_reg"));
+		if (sub) {
+			Area e(c.get("ent0", "sub"), true);
+			UInt t = x ^ a; t.setName(c.get("sg3", "t"));
+			y = reg(t, 1);
+		} else
+			y = x;
+		pinOut(x).setName(c.get("po0", "ox"));
+		pinOut(y).setName(c.get("po1", "oy"));
+	}
+	if (derived) {
+		// separate data path in the derived clock's domain (no crossing), root entity and sub-entity
+		ClockScope cs2(*derived);
+		UInt d = pinIn(4_b).setName(c.get("pi5", "d"));
+		UInt z = reg(d + 1, 3);
+		z.setName(c.get("sg4", "z"));
+		if (sub) {
+			Area e2(c.get("ent1", "sub_derived"), true);
+			z = reg(z ^ d, 2);
+		}
+		pinOut(z).setName(c.get("po2", "oz"));
+	}
+}
+
 static void buildTiny(const Case &c)
 {
 	UInt a = pinIn(4_b).setName(c.get("pi0", "pi0"));
@@ -318,6 +378,7 @@ static int runDesign(const char *casefile, const char *outroot)
 			if (shape == "full") buildFull(c);
 			else if (shape == "mem") buildMem(c);
 			else if (shape == "late") buildLate(c);
+			else if (shape == "clkrst") buildClkRst(c);
 			else buildTiny(c);
 			design.postprocess();
 
